@@ -37,6 +37,7 @@ def run(ctx):
     update(ctx)
     oracle(ctx)
     reference(ctx)
+    extras(ctx)
 
 
 def update(ctx):
@@ -209,3 +210,76 @@ def reference(ctx):
     ctx.ob("MC", "MD3.reset", "reset restarts the margin density from the reference value", v == rd("md"), q.short(v, 60) if v is not None else "not stored")
     ti = ctx.trace("MD3", "__init__")
     ctx.ob("FRM", "MD3.__init__", "a new detector is not waiting and holds no labels", ti.final.attrs.get("waiting_for_oracle") == T.FALSE and ti.final.attrs.get("oracle_data") == T.NONE, "")
+
+
+def extras(ctx):
+    from . import common
+    # constructor wiring, counting, prologue
+    common.lifecycle(ctx, ["MD3"], clean_slate=False)
+    # the running margin density is updated on every accepted sample
+    tr = ctx.trace("MD3", "update", assume={"waiting_for_oracle": False, "_drift_state": None}, nonnull=("X",))
+    md = tr.stores("curr_margin_density")
+    ctx.ob("ROLE", U, "the margin density is updated by every accepted sample", len(md) == 1 and not [g for g in q.guards_in(md[0], U) if not T.mentions(g, lambda a: a[0] == "call" and a[1] == "len")],
+           "found %d stores" % len(md), md[0] if md else None)
+    dyn = [e for e in tr.calls() if e.callee[0] == "dynamic" and e.callee[1] == A("margin_calculation_function")]
+    if dyn:
+        want = q.sub(atom(("mcall", P("X"), "to_numpy", (), ())), 0)
+        ctx.ob("FWD", U, "the signal is computed for the one row given", dyn[0].args[1] == want, q.short(dyn[0].args[1], 80), dyn[0])
+    # reference split into features / target by the named column
+    S_ = "MD3.set_reference"
+    ts = ctx.trace("MD3", "set_reference", nonnull=("X",))
+    X = P("X")
+    cols = atom(("getattr", X, "columns"))
+    for attr, op, what in (("reference_batch_features", "!=", "every column but the target"), ("reference_batch_target", "==", "the target column")):
+        st = [e for e in ts.stores(attr) if e.func.name == "set_reference"]
+        want = atom(("call", "copy.deepcopy", (q.sub(atom(("getattr", X, "loc")), atom(("tuple", (atom(("slice", T.NONE, T.NONE, T.NONE)), T.mk_cmp(op, cols, P("target_name")))))),), ()))
+        ctx.ob("FRM", S_, "%s is a private copy of %s" % (attr, what), len(st) == 1 and st[0].value == want, q.short(st[0].value, 120) if st else "no store", st[0] if st else None)
+    # k-fold statistics: a fresh clone is fitted on the training part of every fold, and judged on the held-out part
+    site = "MD3.calculate_distribution_statistics"
+    fit = [e for e in ts.calls() if e.callee[0] == "mcall" and e.callee[1] == "fit" and e.func.qualname == site]
+    cl = [e for e in ts.calls() if e.callee == ("lib", "sklearn.base.clone") or (e.callee[0] == "lib" and e.callee[1].endswith(".clone"))]
+    ok = len(fit) == 1 and len(cl) == 1 and cl[0].args == (A("classifier"),)
+    split_ok = False
+    if ok:
+        it = [a for a in T.walk(fit[0].args[0]) if a[0] == "iter"]
+        a0, a1 = fit[0].args[0].single_atom(), q.unmut(fit[0].args[1]) if len(fit[0].args) > 1 else None
+        split_ok = a0 is not None and a0[0] == "sub" and T.mentions(fit[0].args[0], lambda z: z == ("param", "X")) and bool(it) and \
+            T.mentions(fit[0].args[0], lambda z: z[0] == "cmp" and z[1] == "!=") and a1 is not None and T.mentions(a1, lambda z: z[0] == "cmp" and z[1] == "==")
+        ok = any((p.cond.single_atom() or ("",))[0] == "inloop" for p in fit[0].pc)
+    ctx.ob("MC", site, "a clone of the classifier is fitted on the training part (features, target) of every fold", ok and split_ok, "", fit[0] if fit else None)
+    sig = [e for e in ts.calls() if e.callee[0] == "dynamic" and e.callee[1] == A("margin_calculation_function") and e.func.qualname == site]
+    if sig and fit:
+        ctx.ob("ORD", site, "the fold's signals are computed with the clone fitted for that fold", fit[0].seq < sig[0].seq and q.unmut(sig[0].args[2]) == q.unmut(fit[0].recv) or
+               (fit[0].seq < sig[0].seq and (q.unmut(sig[0].args[2]).single_atom() or ("",))[0] in ("loopvar", "call")), q.short(sig[0].args[2], 80), sig[0])
+    # margin inclusion signal: |w.x + b| with b = intercept[0] / w[1]
+    tm = ctx.trace("MD3", "calculate_margin_inclusion_signal")
+    clf, sample = P("clf"), P("sample")
+    w = atom(("call", "numpy.array", (q.sub(atom(("getattr", clf, "coef_")), 0),), ()))
+    b = q.sub(atom(("call", "numpy.array", (atom(("getattr", clf, "intercept_")),), ())), 0) / q.sub(w, 1)
+    mis = T.mk_abs(atom(("call", "numpy.dot", (w, sample), ())) + b)
+    want = T.mk_ite(T.mk_cmp("<=", mis, const(1)), const(1), const(0))
+    got = tm.retval
+    ok = got is not None and (got == want or _same_ite(got, want))
+    ctx.ob("FRM", "MD3.calculate_margin_inclusion_signal", "margin value = |w . x + intercept[0] / w[1]|, signal 1 iff it is <= 1", ok, "computed %s" % (q.short(got, 200) if got is not None else None))
+    # give_oracle_label: exact column test
+    tr2 = ctx.trace("MD3", "give_oracle_label", assume={"waiting_for_oracle": True}, nonnull=("labeled_sample",))
+    ls = P("labeled_sample")
+    lab = atom(("call", "list", (atom(("getattr", ls, "columns")),), ()))
+    ref = atom(("concat", atom(("call", "list", (atom(("getattr", A("reference_batch_features"), "columns")),), ())), atom(("call", "list", (atom(("getattr", A("reference_batch_target"), "columns")),), ()))))
+    want_g = T.mk_or([T.mk_cmp("!=", atom(("call", "len", (lab,), ())), atom(("call", "len", (ref,), ()))),
+                      T.mk_cmp("!=", atom(("call", "set", (lab,), ())), atom(("call", "set", (ref,), ())))])
+    rr = [e for e in tr2.raises() if any(T.mentions(g, lambda a: a[0] == "getattr" and a[2] == "columns") for g in guards(e)[-1:])]
+    ok = len(rr) == 1 and guards(rr[0])[-1] == want_g
+    ctx.ob("GRD", G, "a label is refused exactly when its columns differ in number or as a set from the reference's features followed by its target", ok,
+           q.short(guards(rr[0])[-1], 240) if rr else "no refusal", rr[0] if rr else None)
+
+
+def _same_ite(a, b):
+    aa, bb = a.single_atom(), b.single_atom()
+    if aa is None or bb is None or aa[0] != "ite" or bb[0] != "ite":
+        return False
+    if aa[2] == bb[2] and aa[3] == bb[3]:
+        return aa[1] == bb[1] or q.cmp_equiv(aa[1], bb[1])
+    if aa[2] == bb[3] and aa[3] == bb[2]:
+        return aa[1] == T.mk_not(bb[1]) or q.cmp_equiv(aa[1], T.mk_not(bb[1]))
+    return False
